@@ -20,6 +20,10 @@ CLAIMED = {
         technique="deterministic simulation: seeded fit histories (first fit, re-fit, re-fit after injected estimator/slicer/optimiser failure) of a GlobalHierarchicalModel and of a twin receiving one step's rows in another order; stand-alone fits as reference model",
         text="Seeded exploration of model structures, slicers, per-dimension fit options and fit histories with row permutations; after every successful fit each interval's population is checked against the reported boundaries, each per-interval estimate against a stand-alone fit of a fresh template on exactly that population with that dimension's options, each dependence function against a stand-alone fit on the (reference value, estimate) pairs, and the twin for row-order invariance.",
         note="Trusts the harness's own sampler (scipy ppf) for data; rows within 1e-9 of an interval edge may fall on either side (edge conventions belong to C10); nonlinear dependence shapes are compared at 1e-3."),
+    "C20": dict(engine="io", level="exploration", design="DESIGN.md section 3 / C20",
+        technique="deterministic simulation with fault injection at the file seam (builtins.open + numpy's opener table): ENOSPC/EIO at seeded write/flush/close points, failing open, short reads, EIO on read; matplotlib Agg Axes as recording sink with Axes-reuse history",
+        text="Seeded sequences of save / load / plot operations with injected write and read faults; every written file is parsed back and compared with the contour row by row, every loaded frame with the text the harness wrote, every drawn artist with the contour / sample / design conditions / model values; a save that returns after a fault must have written the complete file and the next save must recover.",
+        note="Trusts matplotlib's artist getters and the harness's own parser/formatter; isodensity lines are judged by bracketing the level with the model's pdf around each drawn vertex."),
 }
 
 NA = {
